@@ -1,6 +1,7 @@
 import StyluaModel.Model.Block
-/- `block <variant> <rs|-> <re|-> <stmt,stmt,...>` with stmt = id:kind:startsParen:semi:lines:start:stop
-   answer: per statement `V|F` (verbatim / formatted) and the semicolon bit, comma separated -/
+/- `block <variant> <rs|-> <re|-> <stmt,stmt,...>` with stmt = id:kind:startsParen:semi:lines:start:stop[:blank]
+   answer: per statement `V|F` (verbatim / formatted), the semicolon bit and - where the input has blank lines
+   directly above the statement (`blank` = 1) - whether they were removed (`s`) or kept (`k`); `-` otherwise -/
 namespace Driver.BlockProto
 open StyluaModel.Block
 
@@ -19,7 +20,7 @@ def lineOf : String → Line
   | _ => .other
 
 def parseStmt (s : String) : Option Stmt :=
-  match s.splitOn ":" with
+  match (s.splitOn ":").take 7 with
   | [id, k, sp, semi, ls, a, b] => do
       let id ← id.toNat?
       let k ← kindOf k
@@ -43,8 +44,10 @@ def handle (v rs re body : String) : String :=
       let variant := if v == "pinned" then pinned else repaired
       let range : Option Range := if a.isNone && b.isNone then none else some { start := a, stop := b }
       let outs := fmtBlock variant range stmts
-      ",".intercalate (outs.map fun o =>
-        (if o.decision == .normal then "F" else "V") ++ (if o.semi then "1" else "0"))
+      let blanks := (body.splitOn ",").map fun st => (st.splitOn ":").getD 7 "0" == "1"
+      ",".intercalate ((outs.zip blanks).map fun (o, bl) =>
+        (if o.decision == .normal then "F" else "V") ++ (if o.semi then "1" else "0") ++
+        (if bl then (if o.stripped then "s" else "k") else "-"))
   | _, _, _ => "bad-op"
 
 end Driver.BlockProto
